@@ -49,6 +49,8 @@ def run_on_variants(chk, prog, sim, fn, key, table_fn):
             chk.violation("analysis-incomplete", key, "simulator cannot model %s (variant %s): %s" % (fn["pretty"], var, leaf.info["msg"]), site=K.leaf_site(leaf))
             ok = False
             continue
+        if leaf.kind == "panic" and any(p[0] == "trycell" and p[2] == "held-elsewhere" for p in leaf.pc):
+            continue    # the documented panic of a conflicting RefCell borrow, spelled with try_borrow
         if leaf.kind != "return":
             chk.violation("C17.V", "%s:%s:%s" % (fn["name"], var, leaf.kind), "%s on variant %s: %s %s" % (fn["pretty"], var, leaf.kind, leaf.info.get("msg")), fn=fn["pretty"])
             ok = False
@@ -222,6 +224,7 @@ def todyn_facts(features, rrtk_dep=None):
             ct = open(os.path.join(dst, "Cargo.toml")).read()
             assert 'rrtk = { path = "/repo" }' in ct
             open(os.path.join(dst, "Cargo.toml"), "w").write(ct.replace('rrtk = { path = "/repo" }', rrtk_dep))
+        program.point_at_repo(os.path.join(dst, "Cargo.toml"))
         res, p = program.run_driver(dst, (["--features", ",".join(features)] if features else []), crates=["rrtk_todyn_witness"])
         shutil.rmtree(work, ignore_errors=True)
         _todyn_cache[key] = (res.get("rrtk_todyn_witness"), p.stderr[-1500:])
@@ -415,14 +418,9 @@ def to_dyn_expansion(chk, prog, nostd_prog=None):
             chk.discharge(key)
 
 
-def run(chk):
-    prog = load_config("K1")
-    chk.configs.append("K1")
-    chk.rule("C17.V", "per-variant tables of ReferenceUnsafe::{clone,borrow,borrow_mut}")
-    chk.rule("C17.W", "Reference wrappers delegate to the same-named ReferenceUnsafe function")
-    chk.rule("C17.M", "no cfg(feature) inside exported macro bodies")
-    chk.rule("C17.D", "to_dyn! expansion in a downstream crate (MIR of witness/todyn): each listed variant is rebuilt as the same variant from its own payload through pointer casts only; listed variants never reach unimplemented!(); independent of the caller's features")
-    sim = S.Sim(prog)
+def reference_tables(chk, prog, sim):
+    """per-variant tables of clone / borrow / borrow_mut and the delegating wrappers (shared with C16: a borrow without its
+    guard, or a clone without its count, outlives the object)"""
     M.LOCAL_MODELS_ENABLED = False
     try:
         clone = prog.find_fn(name="clone", self_name="ReferenceUnsafe", trait="Clone")
@@ -437,7 +435,40 @@ def run(chk):
         check_clone_from(chk, prog, sim)
     finally:
         M.LOCAL_MODELS_ENABLED = True
+
+
+def impls_in_every_build(chk):
+    """'for every variant available in the build ... any clone': Reference and ReferenceUnsafe are Clone, and ReferenceUnsafe
+    converts into Reference, in every feature configuration - an impl gated on a feature leaves the remaining variants of a
+    smaller build without clone()."""
+    want = [("core::clone::Clone", "Reference<T>"), ("core::clone::Clone", "ReferenceUnsafe<T>")]
+    for cfg in ("K1", "K2", "K3", "K5"):
+        p = load_config(cfg)
+        if cfg not in chk.configs:
+            chk.configs.append(cfg)
+        key = "I:impls@" + cfg
+        chk.obligation(key, "Clone impls of Reference / ReferenceUnsafe exist in configuration " + cfg)
+        have = {(re.sub(r"^(std|alloc)::", "core::", i.get("trait")), ty_str(i["self"])) for i in p.impls if i.get("trait")}
+        chk.evaluated(len(want), nontrivial=(key,))
+        miss = [w for w in want if w not in have]
+        for tr, ty in miss:
+            chk.violation("C17.V", "impl:%s:%s@%s" % (tr, ty, cfg), "[configuration %s] %s does not implement %s in this build although its variants exist: a Reference cannot be cloned there"
+                          % (cfg, ty, tr))
+        if not miss:
+            chk.discharge(key)
+
+
+def run(chk):
+    prog = load_config("K1")
+    chk.configs.append("K1")
+    chk.rule("C17.V", "per-variant tables of ReferenceUnsafe::{clone,borrow,borrow_mut}")
+    chk.rule("C17.W", "Reference wrappers delegate to the same-named ReferenceUnsafe function")
+    chk.rule("C17.M", "no cfg(feature) inside exported macro bodies")
+    chk.rule("C17.D", "to_dyn! expansion in a downstream crate (MIR of witness/todyn): each listed variant is rebuilt as the same variant from its own payload through pointer casts only; listed variants never reach unimplemented!(); independent of the caller's features")
+    sim = S.Sim(prog)
+    reference_tables(chk, prog, sim)
     macro_hygiene(chk, prog)
+    impls_in_every_build(chk)
     to_dyn_expansion(chk, prog, load_config("K2"))
     chk.configs.append("K2")
     if chk.tier == "thorough":
